@@ -13,6 +13,7 @@ import (
 
 	proto "github.com/kubewharf/kubebrain-client/api/v2rpc"
 	"k8s.io/client-go/tools/leaderelection/resourcelock"
+	"k8s.io/klog/v2"
 
 	"github.com/kubewharf/kubebrain/pkg/backend"
 	"github.com/kubewharf/kubebrain/pkg/backend/coder"
@@ -415,6 +416,32 @@ func (s *backendSuite) do(t []string) string {
 	case "setrev":
 		s.b.SetCurrentRevision(atou(pos[1]))
 		return "setrev ok"
+	case "ttllog":
+		// ttllog on | ttllog: start recording / print and clear the TTLs handed to the engine, one group per batch
+		s.c.mu.Lock()
+		defer s.c.mu.Unlock()
+		if len(pos) > 1 && pos[1] == "on" {
+			s.c.ttlLogOn, s.c.ttlLog = true, nil
+			return "ttllog on"
+		}
+		out := strings.Join(s.c.ttlLog, ";")
+		s.c.ttlLog = nil
+		if out == "" {
+			out = "-"
+		}
+		return "ttllog " + out
+	case "logarm":
+		// logarm <hex substring>: log lines (klog.InfoS/ErrorS) whose message contains it park the gated client that
+		// logs them (arrival "at <cid> log"); `logarm -` disarms all
+		s.c.mu.Lock()
+		if pos[1] == "-" {
+			s.c.logArmed = nil
+		} else {
+			s.c.logArmed = append(s.c.logArmed, string(unhx(pos[1])))
+		}
+		s.c.mu.Unlock()
+		klog.SetLogFilter(logGate{c: s.c})
+		return "logarm ok"
 	case "getfault":
 		// getfault: the next point Get the engine sees fails once with a transient error (for a range read, count
 		// or stream that is the read of the compaction record)
@@ -894,6 +921,15 @@ func (s *backendSuite) do(t []string) string {
 					s.c.arrived <- arrival{cid: cid, done: true, line: fmt.Sprintf("%s PANIC %v", req[0], strings.Fields(fmt.Sprint(r)))}
 				}
 			}()
+			gid := curGid()
+			s.c.mu.Lock()
+			s.c.gidCid[gid] = cid
+			s.c.mu.Unlock()
+			defer func() {
+				s.c.mu.Lock()
+				delete(s.c.gidCid, gid)
+				s.c.mu.Unlock()
+			}()
 			var line string
 			if req[0] == "watch" {
 				wctx, cancel := context.WithCancel(cctx)
@@ -930,6 +966,29 @@ func (s *backendSuite) do(t []string) string {
 		}
 		ch <- d
 		return s.awaitClient(cid)
+	case "stepto":
+		// stepto <cid> <gate> [max=<n>]: release the client until it arrives at the named gate (`log`, `get`, `iter`,
+		// `commit`) or finishes; when it is ALREADY parked at a gate it is first released from it. Prints the last arrival.
+		cid, gate := pos[1], pos[2]
+		max := 40
+		if v, ok := opts["max"]; ok {
+			max = atoi(v)
+		}
+		last := "stepto " + cid + " no-such-client"
+		for i := 0; i < max; i++ {
+			s.c.mu.Lock()
+			ch := s.c.clients[cid]
+			s.c.mu.Unlock()
+			if ch == nil {
+				break
+			}
+			ch <- "-"
+			last = s.awaitClient(cid)
+			if strings.HasPrefix(last, "done ") || last == "at "+cid+" "+gate || strings.HasPrefix(last, "stuck") {
+				break
+			}
+		}
+		return last
 	case "arm":
 		s.hmu.Lock()
 		g := s.hooks[pos[1]]
